@@ -460,12 +460,19 @@ func (m c05) Case(c *Ctx, r *RNG) {
 		mut("unknown-field", func(v *JV) bool {
 			for i, k := range v.Keys {
 				if (k == "attributes" || k == "relationships") && v.Vals[i].Kind == 'o' {
-					v.Vals[i].Keys = append(v.Vals[i].Keys, "no-such-field")
+					v.Vals[i].Keys = append(v.Vals[i].Keys, r.Pick([]string{"no-such-field", "no-such-field", "", " ", "@context", "\x00", "id", "type", strings.Repeat("k", 300)}))
 					v.Vals[i].Vals = append(v.Vals[i].Vals, &JV{Kind: 'r', Str: r.Pick([]string{`1`, `{"data":null}`, `"x"`})})
 					return true
 				}
 			}
 			return false
+		})
+		mut("unknown-field", func(v *JV) bool { // a member of any object renamed to the empty string or another odd name
+			if len(v.Keys) == 0 || !r.Chance(1, 4) {
+				return false
+			}
+			v.Keys[r.Intn(len(v.Keys))] = r.Pick([]string{"", "", "@", "-", "a.b", "\u0000"})
+			return true
 		})
 		mut("duplicate-key", func(v *JV) bool {
 			if len(v.Keys) == 0 {
